@@ -159,7 +159,7 @@ func (p *pkgInfo) writesIn(fl *ast.FuncLit) []write {
 	var out []write
 	add := func(e ast.Expr, kind string) {
 		if v := p.root(e); v != nil {
-			if _, plain := ast.Unparen(e).(*ast.Ident); !plain && (kind == "assign" || kind == "incdec" || kind == "range") {
+			if _, plain := unparen(e).(*ast.Ident); !plain && (kind == "assign" || kind == "incdec" || kind == "range") {
 				kind = "through"
 			}
 			out = append(out, write{v, kind})
@@ -189,7 +189,7 @@ func (p *pkgInfo) writesIn(fl *ast.FuncLit) []write {
 			}
 		case *ast.UnaryExpr:
 			if x.Op == token.AND {
-				if _, isLit := ast.Unparen(x.X).(*ast.CompositeLit); !isLit {
+				if _, isLit := unparen(x.X).(*ast.CompositeLit); !isLit {
 					add(x.X, "addr")
 				}
 			}
@@ -213,6 +213,16 @@ func (p *pkgInfo) writesIn(fl *ast.FuncLit) []write {
 		return true
 	})
 	return out
+}
+
+func unparen(e ast.Expr) ast.Expr {
+	for {
+		p, ok := e.(*ast.ParenExpr)
+		if !ok {
+			return e
+		}
+		e = p.X
+	}
 }
 
 func rootIdent(e ast.Expr) *ast.Ident {
@@ -363,9 +373,9 @@ func main() {
 			}
 			return common.FuncHash(p.fset, f, recv, name)
 		}
-		fmt.Fprintf(&b, "/-- fingerprints of the functions the models transcribe -/\ndef sourceHashes : List (String × String) :=\n  [(\"_select\", %s),\n   (\"clauseChanDir\", %s),\n   (\"getFunc\", %s),\n   (\"frame.clone\", %s),\n   (\"newFrame\", %s)]\n",
+		fmt.Fprintf(&b, "/-- fingerprints of the functions the models transcribe -/\ndef sourceHashes : List (String × String) :=\n  [(\"_select\", %s),\n   (\"clauseChanDir\", %s),\n   (\"getFunc\", %s),\n   (\"frame.clone\", %s),\n   (\"newFrame\", %s),\n   (\"copyDeferArg\", %s)]\n",
 			common.LeanStr(h(frun, "", "_select")), common.LeanStr(h(frun, "", "clauseChanDir")), common.LeanStr(h(frun, "", "getFunc")),
-			common.LeanStr(h(fint, "frame", "clone")), common.LeanStr(h(fint, "", "newFrame")))
+			common.LeanStr(h(fint, "frame", "clone")), common.LeanStr(h(fint, "", "newFrame")), common.LeanStr(h(frun, "", "copyDeferArg")))
 		b.WriteString("end YaegiVerif.Generated.C08\n")
 		return b.String(), nil
 	})
